@@ -1,5 +1,23 @@
 # Development configuration for the stream Write*/Read* part of C01 (merged into checks/c01.py later).
+import os, sys
+sys.path.insert(0, os.path.dirname(os.path.dirname(os.path.abspath(__file__))))
+import checklib
+
+
+def regen(ctx):
+    """lean/Hive/Gen/C02_Facts.lean (shared with C02, same generator harness/c02/facts): normalised bodies of the stream
+    writers, ByteBuffer.Write/Seek, Offset/Skip/GoTo - pinned by the C01_facts_* obligations."""
+    out = os.path.join(checklib.LEAN, "Hive", "Gen", "C02_Facts.lean")
+    tmp = os.path.join(ctx.scratch, "C02_Facts.lean")
+    rc, log = checklib.sh(["go", "run", "./c02/facts", tmp, "Hive.Gen.C02Facts", ctx.repo], cwd=checklib.HARNESS, timeout=600)
+    if rc != 0 or not os.path.exists(tmp):
+        return [{"kind": "facts-extractor", "detail": checklib.tail(log, 20)}]
+    checklib.write_gen(ctx, out, open(tmp).read())
+    return []
+
+
 SPEC = {
+    "regen": regen,
     "lean_props": "Hive.Props.C01c",
     "lean_namespace": "Hive.Stream",
     "theorem_prefix": "C01",
@@ -7,12 +25,15 @@ SPEC = {
     "harness": "c01c",
     "theorems": ["C01_stream_any_chunking", "C01_stream_op_any_chunking", "C01_stream_write_layout",
                  "C01_stream_op_write_layout", "C01_stream_in_place_any_chunking", "C01_stream_readFull_any_chunking",
-                 "C01_stream_seek_spec", "C01_stream_seek_end_appends", "C01_stream_seek_in_place_any_chunking"],
+                 "C01_stream_seek_spec", "C01_stream_seek_end_appends", "C01_stream_seek_in_place_any_chunking",
+                 "C01_facts_body_writeFixedSize", "C01_facts_body_WriteCollection", "C01_facts_body_WriteBytesWithSize", "C01_facts_body_ByteBuffer_Write", "C01_facts_body_ByteBuffer_Seek", "C01_facts_body_Offset", "C01_facts_body_Skip", "C01_facts_body_GoTo", "C01_facts_fitsLP"],
     "trusted_base": ["hand-written model Hive/Model/Stream.lean of serializer/stream/{read,write,byte_buffer}.go, tied by differential execution (harness/c01c, harness/c02/sx)",
                      "io.ReadFull / binary.Read / bytes.Buffer semantics as written down in the model (readFullAux, BB.write)",
+                     "harness/c02/facts (go/ast): regenerated normalised bodies of the writers, ByteBuffer.Write/Seek and the seek helpers (Hive/Gen/C02_Facts.lean), pinned by the C01_facts_* obligations against Hive/Spec/DeserFacts.lean",
                      "Go toolchain, compiled Lean driver"],
     "modelled": ["stream.Read[T] for the integer/bool/[32|36|38]byte instances, ReadBytes, ReadBytesWithSize, ReadObject, ReadObjectWithSize, PeekSize, ReadCollection",
-                 "stream.Write[T], WriteBytes, WriteBytesWithSize, WriteObject, WriteObjectWithSize, WriteCollection over stream.ByteBuffer (Write/Seek)",
+                 "stream.Write[T], WriteBytes, WriteBytesWithSize, WriteObject, WriteObjectWithSize, WriteCollection over stream.ByteBuffer (Write/Seek with all three whence values, negative targets refused; stream.GoTo/Skip/Offset)",
+                 "ReadObjectFromReader, reader programs between GoTo/Skip/Offset over a stream.ByteReader with BytesRead, readers that return io.EOF together with their last bytes, readers that break with another error",
                  "an io.Reader over a fixed byte string = data + list of chunk sizes (0-byte reads allowed, io.EOF at the end); readers that fail with other errors are not modelled",
                  "objectToBytes/objectFromBytes callbacks are the identity (plus typeutils.Uint64FromBytes/ByteArray32FromBytes on the reader side)"],
     "manifest": {
